@@ -230,6 +230,14 @@ func GenerateCases(seed int64, n, blocks int, outPath, scratch, jsonPath, profil
 			for _, d := range diffs {
 				st.ForkDiffs = append(st.ForkDiffs, fmt.Sprintf("history %d: %s", i, d))
 			}
+			diffs2, _, ferr := ForkDeleteInvalidOnly(h, scratch, fmt.Sprintf("fork2-%d", i))
+			if ferr != nil {
+				return nil, ferr
+			}
+			st.ForkRuns++
+			for _, d := range diffs2 {
+				st.ForkDiffs = append(st.ForkDiffs, fmt.Sprintf("history %d (only the deliberately invalid failed transactions removed): %s", i, d))
+			}
 		}
 	}
 	return st, err
